@@ -43,7 +43,13 @@ type c19Case struct {
 	Args   []c19Arg   `json:"args,omitempty"`
 	Src    string     `json:"src,omitempty"`
 	Part   string     `json:"part"`
+	Wrap   int        `json:"wrap,omitempty"` // index into c19Wraps: the call is nested inside another call / a literal
+	Nested []int      `json:"nested,omitempty"` // part "nested": outer arity, position of the inner call, inner arity
 }
+
+// the call under test as a statement, or nested: as the value of a named argument, as a positional
+// argument, inside a list literal that is an argument, as the right-hand side of an assignment
+var c19Wraps = []string{"%s", "w(k = %s)", "w(%s)", "w(k = [1, %s])", "x = %s", "w(k = w(k = %s))"}
 
 func c19ValidName(s string) bool {
 	if s == "" {
@@ -226,16 +232,23 @@ func c19Src(args []c19Arg) string {
 func c19Exec(ps []c19Param, src string) (accepted bool, loadErr string, obs []string, runErr string) {
 	params := c19Real(ps)
 	var got []string
+	depth := 0
 	fn := &v2.Fn{
 		Desc: v2.FnDesc{Name: "f", Params: params},
 		CallCheck: func(ctx *v2.Task, expr *ast.CallExpr) *errchain.PlError {
 			return v2.CheckPassParam(ctx, expr, params)
 		},
 		Call: func(ctx *v2.Task, expr *ast.CallExpr) *errchain.PlError {
+			depth++
+			defer func() { depth-- }()
+			tag := ""
+			if depth > 1 {
+				tag = fmt.Sprintf("@%d:", depth) // a call of f met while an outer call of f reads its arguments
+			}
 			for i := range params {
 				v, err := v2.GetParam(ctx, expr, params, i)
 				if err != nil {
-					got = append(got, "ERR")
+					got = append(got, tag+"ERR")
 					continue
 				}
 				s := drv.Canon(v)
@@ -280,7 +293,7 @@ func c19Exec(ps []c19Param, src string) (accepted bool, loadErr string, obs []st
 						s += "!wrong-typed-getter-succeeds"
 					}
 				}
-				got = append(got, s)
+				got = append(got, tag+s)
 				// the callee may change a default it received in place; the next call gets a new one
 				if l, ok := v.([]any); ok && len(l) == 1 {
 					if d, isDefault := l[0].(string); isDefault && strings.HasPrefix(d, "d") {
@@ -288,10 +301,24 @@ func c19Exec(ps []c19Param, src string) (accepted bool, loadErr string, obs []st
 					}
 				}
 			}
+			ctx.Regs.ReturnAppend(v2.V{V: int64(1), T: ast.Int})
 			return nil
 		},
 	}
-	sc, err := engine.ParseV2("s.p", src, map[string]*v2.Fn{"f": fn})
+	fn.Desc.Returns = []*v2.Param{{Desc: "value"}}
+	wparams := []*v2.Param{{Name: "k"}}
+	wfn := &v2.Fn{
+		Desc:      v2.FnDesc{Name: "w", Params: wparams, Returns: []*v2.Param{{Desc: "value"}}},
+		CallCheck: func(ctx *v2.Task, expr *ast.CallExpr) *errchain.PlError { return v2.CheckPassParam(ctx, expr, wparams) },
+		Call: func(ctx *v2.Task, expr *ast.CallExpr) *errchain.PlError {
+			if _, err := v2.GetParam(ctx, expr, wparams, 0); err != nil {
+				return err
+			}
+			ctx.Regs.ReturnAppend(v2.V{V: int64(2), T: ast.Int})
+			return nil
+		},
+	}
+	sc, err := engine.ParseV2("s.p", src, map[string]*v2.Fn{"f": fn, "w": wfn})
 	if err != nil {
 		return false, err.Error(), nil, ""
 	}
@@ -314,7 +341,9 @@ func c19Exec(ps []c19Param, src string) (accepted bool, loadErr string, obs []st
 	for k := 1; k <= count.N && k <= 12; k++ {
 		got = nil
 		_ = sc.Run(&drv.Sig{FireAt: k})
-		if len(got) > 0 && strings.Join(got, ";") != strings.Join(first, ";") {
+		// (a script of several statements may be cut between them: then what ran is a prefix)
+		isPrefix := strings.Contains(src, "\n") && len(got) <= len(first) && strings.Join(got, ";") == strings.Join(first[:len(got)], ";")
+		if len(got) > 0 && strings.Join(got, ";") != strings.Join(first, ";") && !isPrefix {
 			return true, "", first, fmt.Sprintf("with the exit signal true from poll %d on, the callee ran and received %v instead of %v", k, got, first)
 		}
 	}
@@ -370,7 +399,11 @@ func c19Expect(ps []c19Param, bound []c19Binding) []string {
 }
 
 func c19CheckCall(ps []c19Param, args []c19Arg) (key, what string, outcome string) {
-	src := c19Src(args)
+	return c19CheckCallIn(ps, args, 0)
+}
+
+func c19CheckCallIn(ps []c19Param, args []c19Arg, wrap int) (key, what string, outcome string) {
+	src := fmt.Sprintf(c19Wraps[wrap], c19Src(args))
 	reasons, bound := c19RefBind(ps, args)
 	acc, lerr, obs, rerr := c19Exec(ps, src)
 	outcome = fmt.Sprintf("%v|%v|%v", acc, reasons, obs)
@@ -396,6 +429,86 @@ func c19CheckCall(ps []c19Param, args []c19Arg) (key, what string, outcome strin
 		return "C19:wrong-binding", fmt.Sprintf("call %s against params %s: parameters received %v, reference binder says %v", src, c19Fmt(ps), obs, exp), outcome
 	}
 	return "", "", outcome
+}
+
+// c19NestedCheck: a call of f one of whose positional arguments is itself a call of f, as the first
+// statement of a script and after a statement that has already called f (what a reused buffer would
+// betray). The outer call receives exactly its arguments (the inner call's value among them), every
+// evaluation of the inner call receives its own, and the second form behaves like the first.
+func c19NestedCheck(ps []c19Param, outerN, innerPos, innerN int) (key, what, outcome string) {
+	lit := func(n int) []string { return append([]string(nil), c19ArgLits[:n]...) }
+	pos := func(n int) []c19Arg { return make([]c19Arg, n) }
+	inner := "f(" + strings.Join(lit(innerN), ", ") + ")"
+	oargs := lit(outerN)
+	oargs[innerPos] = inner
+	nested := "f(" + strings.Join(oargs, ", ") + ")"
+	warm := "f(" + strings.Join(lit(4), ", ") + ")"
+	wr, _ := c19RefBind(ps, pos(4))
+	if len(wr) > 0 {
+		warm = "f(" + strings.Join(lit(len(ps)), ", ") + ")"
+		if wr, _ = c19RefBind(ps, pos(len(ps))); len(wr) > 0 {
+			warm = ""
+		}
+	}
+	or, obound := c19RefBind(ps, pos(outerN))
+	ir, ibound := c19RefBind(ps, pos(innerN))
+	bindable := len(or) == 0 && len(ir) == 0
+	acc1, lerr1, obs1, rerr1 := c19Exec(ps, nested)
+	outcome = fmt.Sprintf("nested|%v|%v|%v", acc1, or, ir)
+	desc := fmt.Sprintf("%s against params %s", nested, c19Fmt(ps))
+	if !bindable {
+		if acc1 {
+			return "C19:call-accepted-but-unbindable:nested-in-own-argument", fmt.Sprintf("%s is accepted at load time although it cannot be bound (outer: %v, inner: %v)", desc, or, ir), outcome
+		}
+		return "", "", outcome
+	}
+	if !acc1 {
+		return "C19:call-rejected-but-bindable:nested-in-own-argument", fmt.Sprintf("%s is bindable but rejected: %s", desc, lerr1), outcome
+	}
+	if rerr1 != "" {
+		return "C19:run-error-on-bound-call:nested-in-own-argument", fmt.Sprintf("%s: run error %s", desc, rerr1), outcome
+	}
+	ovals := append([]any(nil), c19ArgVals...)
+	ovals[innerPos] = int64(1) // what f returns
+	expO := c19ExpectWith(ps, obound, ovals)
+	expI := c19ExpectWith(ps, ibound, c19ArgVals)
+	var gotO, gotI []string
+	for _, e := range obs1 {
+		if strings.HasPrefix(e, "@2:") {
+			gotI = append(gotI, strings.TrimPrefix(e, "@2:"))
+		} else {
+			gotO = append(gotO, e)
+		}
+	}
+	if strings.Join(gotO, ";") != strings.Join(expO, ";") {
+		return "C19:wrong-binding:nested-in-own-argument:outer", fmt.Sprintf("%s: the outer call received %v, reference binder says %v", desc, gotO, expO), outcome
+	}
+	if len(ps) > 0 && (len(gotI) == 0 || len(gotI)%len(ps) != 0) {
+		return "C19:wrong-binding:nested-in-own-argument:inner", fmt.Sprintf("%s: the inner call reported %v", desc, gotI), outcome
+	}
+	for g := 0; len(ps) > 0 && g < len(gotI); g += len(ps) {
+		if strings.Join(gotI[g:g+len(ps)], ";") != strings.Join(expI, ";") {
+			return "C19:wrong-binding:nested-in-own-argument:inner", fmt.Sprintf("%s: an evaluation of the inner call received %v, reference binder says %v", desc, gotI[g:g+len(ps)], expI), outcome
+		}
+	}
+	if warm == "" {
+		return "", "", outcome
+	}
+	acc2, lerr2, obs2, rerr2 := c19Exec(ps, warm+"\n"+nested)
+	if !acc2 || rerr2 != "" {
+		return "C19:nested-in-own-argument:fails-after-an-earlier-call", fmt.Sprintf("%s loads and runs alone; after the statement %s: %s %s", desc, warm, lerr2, rerr2), outcome
+	}
+	if len(obs2) < len(ps) || strings.Join(obs2[len(ps):], ";") != strings.Join(obs1, ";") {
+		return "C19:wrong-binding:nested-in-own-argument:after-an-earlier-call", fmt.Sprintf("%s alone binds %v; after the statement %s the whole script binds %v", desc, obs1, warm, obs2), outcome
+	}
+	return "", "", outcome
+}
+
+func c19ExpectWith(ps []c19Param, bound []c19Binding, vals []any) []string {
+	saved := c19ArgVals
+	c19ArgVals = vals
+	defer func() { c19ArgVals = saved }()
+	return c19Expect(ps, bound)
 }
 
 func c19Fmt(ps []c19Param) string {
@@ -504,6 +617,41 @@ func c19Run(w *run.Worker) {
 			}
 		}
 	})
+	// a call of f among the positional arguments of a call of f
+	for outerN := 1; outerN <= 4; outerN++ {
+		for innerPos := 0; innerPos < outerN; innerPos++ {
+			for innerN := 0; innerN <= 3; innerN++ {
+				for _, ps := range valid {
+					if !w.Take() {
+						continue
+					}
+					w.Eval()
+					key, what, out := c19NestedCheck(ps, outerN, innerPos, innerN)
+					w.Outcome(out)
+					if key != "" {
+						w.Violate(key, what, c19Case{Params: ps, Part: "nested", Nested: []int{outerN, innerPos, innerN}})
+					}
+				}
+			}
+		}
+	}
+	// the same call nested inside other constructs (shapes of <=3 arguments): it is checked and bound alike
+	c19Shapes(3, func(args []c19Arg) {
+		ca := append([]c19Arg(nil), args...)
+		for wrap := 1; wrap < len(c19Wraps); wrap++ {
+			for _, ps := range valid {
+				if !w.Take() {
+					continue
+				}
+				w.Eval()
+				key, what, out := c19CheckCallIn(ps, ca, wrap)
+				w.Outcome(fmt.Sprintf("wrap%d|%s", wrap, out))
+				if key != "" {
+					w.Violate(key+":nested", what, c19Case{Params: ps, Args: ca, Src: fmt.Sprintf(c19Wraps[wrap], c19Src(ca)), Part: "call", Wrap: wrap})
+				}
+			}
+		}
+	})
 }
 
 func c19Replay(raw json.RawMessage) (bool, string) {
@@ -515,7 +663,14 @@ func c19Replay(raw json.RawMessage) (bool, string) {
 		key, what, _ := c19CheckDef(c.Params)
 		return key != "", what
 	}
-	key, what, _ := c19CheckCall(c.Params, c.Args)
+	if c.Part == "nested" && len(c.Nested) == 3 {
+		key, what, _ := c19NestedCheck(c.Params, c.Nested[0], c.Nested[1], c.Nested[2])
+		return key != "", what
+	}
+	if c.Wrap < 0 || c.Wrap >= len(c19Wraps) {
+		return false, "unknown wrap"
+	}
+	key, what, _ := c19CheckCallIn(c.Params, c.Args, c.Wrap)
 	return key != "", what
 }
 
@@ -525,6 +680,7 @@ func init() {
 		Level: "model_checking",
 		Rule: "every parameter list of length 0..4 over kind {required, optional, variadic} x name {a,b,c,e,1x,\"\"} through CheckFnParamDef; " +
 			"parameter names incl. malformed ones with a valid prefix; an optional parameter whose declared default is nil; every valid list x every call shape of 0..5 arguments (positional or named a|b|c|e|zz) through ParseV2 and Run with a probe reading every parameter via GetParam and the typed getters; " +
+			"every valid list x every shape of <=3 arguments nested as the value of a named argument, as a positional argument, inside a list literal, as an assignment source, two calls deep; a call of f among the positional arguments of a call of f (outer arity 1..4 x position x inner arity 0..3), as the first statement and after an earlier call of f; " +
 			"distinct = distinct (verdict, reference reasons, observed bindings) triples",
 		Assumptions: []string{
 			"the function's checker calls CheckPassParam and its body reads parameters with GetParam*, as the API intends",
